@@ -74,6 +74,8 @@ fn parse_kv(data: &[u8]) -> Result<Vec<(String, u64)>, String> {
 
 pub fn run_counter(in_path: &str, out_dir: &str, cfg: &CtrCfg, ctl: Option<&Arc<Controller>>) -> CtrRun {
     let _ = std::fs::create_dir_all(out_dir);
+    // files already present before the run (other runs of a history, planted stale files) are not this run's leftovers
+    let pre_existing: Option<HashSet<String>> = std::fs::read_dir(out_dir).ok().map(|rd| rd.flatten().map(|e| e.file_name().to_string_lossy().into_owned()).collect());
     if let Some(c) = ctl {
         c.install();
     }
@@ -114,7 +116,8 @@ pub fn run_counter(in_path: &str, out_dir: &str, cfg: &CtrCfg, ctl: Option<&Arc<
     if let Ok(rd) = std::fs::read_dir(out_dir) {
         for e in rd.flatten() {
             let name = e.file_name().to_string_lossy().into_owned();
-            if name.starts_with("temp_kmers") {
+            // whatever the temporary chunk files are called: after merge(delete) only result files may remain
+            if name.starts_with("temp_kmers") || (pre_existing.is_some() && !pre_existing.as_ref().unwrap().contains(&name) && name != "kmers.counts" && name != "kmers.vectors") {
                 leftover.push(name);
             }
         }
@@ -198,6 +201,11 @@ pub fn check_history(run: &CtrRun, recs: &[Rec], cfg: &CtrCfg, events: &[Event])
     }
     if taken.len() != recs.len() {
         return Err(("ctr.phantom_record".into(), format!("{} ordinals taken, input has {} records", taken.len(), recs.len())));
+    }
+    if run.temps.is_empty() {
+        // no file named temp_kmers.part_P_chunk_C was observable between count() and merge(): the names of
+        // temporary files are not part of the property, so the file-based history monitors do not apply
+        return Ok((0, 0));
     }
     let n_parts = run.temps.iter().map(|t| t.part + 1).max().unwrap_or(0);
     let n_chunks = run.temps.iter().map(|t| t.chunk + 1).max().unwrap_or(0);
